@@ -12,14 +12,25 @@ impl U256 {
     pub const MAX: U256 = U256(u128::MAX, u128::MAX);
     pub open spec fn view(self) -> nat { (self.0 as nat) * 0x1_0000_0000_0000_0000_0000_0000_0000_0000 + (self.1 as nat) }
 }
-#[derive(PartialEq, Eq, Structural, Clone, Copy)] pub struct InvalidTransaction(pub u64);
-#[derive(PartialEq, Eq, Structural, Clone, Copy)] pub struct ErrText(pub u64);
-pub enum EVMError<E> { Transaction(InvalidTransaction), Header(u8), Database(E), Custom(ErrText) }
+#[derive(PartialEq, Eq, Structural, Clone, Copy)]
+pub enum InvalidTransaction { NonceOverflowInTransaction, NonceTooLow { tx: u64, state: u64 }, NonceTooHigh { tx: u64, state: u64 }, LackOfFundForMaxFee, Other(u64) }
+pub enum EVMError<E> { Transaction(InvalidTransaction), Header(u8), Database(E), Custom(String) }
+impl<E> From<InvalidTransaction> for EVMError<E> { fn from(e: InvalidTransaction) -> (r: Self) { EVMError::Transaction(e) } }
+impl<E> vstd::std_specs::convert::FromSpecImpl<InvalidTransaction> for EVMError<E> {
+    open spec fn obeys_from_spec() -> bool { true }
+    open spec fn from_spec(e: InvalidTransaction) -> Self { EVMError::Transaction(e) }
+}
 pub struct GrevmError<E> { pub txid: TxId, pub error: EVMError<E> }
 impl<E> GrevmError<E> { #[verifier::external_body] pub fn clone(&self) -> (r: Self) ensures r == *self { unimplemented!() } }
 /// revm::DatabaseRef: every answer is a function of the (immutable) database value
+pub trait DBErrorMarker {}
+impl<E: DBErrorMarker> From<E> for EVMError<E> { fn from(e: E) -> (r: Self) { EVMError::Database(e) } }
+impl<E: DBErrorMarker> vstd::std_specs::convert::FromSpecImpl<E> for EVMError<E> {
+    open spec fn obeys_from_spec() -> bool { true }
+    open spec fn from_spec(e: E) -> Self { EVMError::Database(e) }
+}
 pub trait DatabaseRef {
-    type Error;
+    type Error: DBErrorMarker;
     spec fn basic_spec(&self, a: Address) -> Result<Option<AccountInfo>, Self::Error>;
     fn basic_ref(&self, a: Address) -> (r: Result<Option<AccountInfo>, Self::Error>) ensures r == self.basic_spec(a);
     spec fn code_spec(&self, h: B256) -> Result<Bytecode, Self::Error>;
